@@ -34,7 +34,7 @@ type Case struct {
 	Probes []string `json:"probes,omitempty"`
 }
 
-var patternPool = []string{"[a-z]+", "[a-z0-9]*", "a.*", ".*z", "(ab|cd)+", "[^x]*", "a|b", ".{2,6}"}
+var patternPool = []string{"(ab+)|(cd+)", "([0-9]+)|(none)", "[a-z]+", "[a-z0-9]*", "a.*", ".*z", "(ab|cd)+", "[^x]*", "a|b", ".{2,6}"}
 
 type gen struct{ t *rapid.T }
 
@@ -172,7 +172,9 @@ func (g *gen) subRange(cur []vt.Iv, fd int, mode int) string {
 func genCase(t *rapid.T) Case {
 	g := &gen{t}
 	c := Case{}
-	switch g.pick(4, "basekind") {
+	switch g.pick(5, "basekind") {
+	case 4:
+		c.Base = []string{"boolean", "enumeration", "union"}[g.pick(3, "fixed")]
 	case 0:
 		c.Base = []string{"int8", "int16", "int32", "int64"}[g.pick(4, "iw")]
 	case 1:
@@ -183,7 +185,7 @@ func genCase(t *rapid.T) Case {
 	default:
 		c.Base = "string"
 	}
-	sp := vt.Builtin(c.Base, c.FD)
+	sp := baseSpace(c)
 	if c.Base == "decimal64" {
 		// stay far below 2^53 scaled units: exactness of 64-bit decimal64 bounds is C16's business
 		sp.Ranges = []vt.Iv{{Lo: big.NewInt(-9999999), Hi: big.NewInt(9999999)}}
@@ -193,7 +195,18 @@ func genCase(t *rapid.T) Case {
 		var l Level
 		if g.pick(3, "restrict") != 0 || isLeaf {
 			mode := []int{0, 0, 0, 0, 0, 1, 0, 0, 3, 0, 2, 0, 0, 3, 0, 0}[g.pick(16, "mode")]
-			if c.Base == "string" {
+			if fixedBases[c.Base] != nil {
+				if g.pick(20, "wrongkind") == 11 {
+					switch g.pick(3, "wkfixed") {
+					case 0:
+						l.Range = "1..5"
+					case 1:
+						l.Length = "1..5"
+					default:
+						l.Patterns = []string{"[a-z]+"}
+					}
+				}
+			} else if c.Base == "string" {
 				if g.pick(2, "len") == 0 {
 					l.Length = g.subRange(sp.Lengths, 0, mode)
 				}
@@ -230,9 +243,11 @@ func genCase(t *rapid.T) Case {
 				sp.Lengths = r
 			}
 		}
-		if g.pick(6, "default") == 3 {
+		if g.pick(6, "default") == 3 || (fixedBases[c.Base] != nil && g.pick(3, "fdefault") == 1) {
 			var d string
-			if c.Base == "string" {
+			if fixedBases[c.Base] != nil {
+				d = []string{"true", "false", "one", "two", "three", "four", "auto", "5", "100", "101", "x", "One", ""}[g.pick(13, "fdef")]
+			} else if c.Base == "string" {
 				d = []string{"a", "ab", "abz", "cdcd", "", "xyz", "b", "aaaaaaaaaaaaaaaaaaaa", "az", "abab", "aaz", "abcz"}[g.pick(12, "sdef")]
 			} else {
 				iv := sp.Ranges[g.pick(len(sp.Ranges), "defiv")]
@@ -260,7 +275,9 @@ func genCase(t *rapid.T) Case {
 	}
 	// random probes in addition to the bound probes computed at check time
 	for i := 0; i < 4; i++ {
-		if c.Base == "string" {
+		if fixedBases[c.Base] != nil {
+			c.Probes = append(c.Probes, []string{"true", "false", "one", "two", "three", "four", "auto", "5", "100", "101", "x", "One", "", "0", "256", "-1"}[g.pick(16, "fprobe")])
+		} else if c.Base == "string" {
 			c.Probes = append(c.Probes, rapid.StringOfN(rapid.SampledFrom([]rune{'a', 'b', 'c', 'd', 'z', 'x', '0', 'é'}), 0, 8, -1).Draw(t, "sprobe"))
 		} else {
 			c.Probes = append(c.Probes, fmtScaled(big.NewInt(int64(rapid.IntRange(-300, 300).Draw(t, "iprobe"))), c.FD))
@@ -269,9 +286,36 @@ func genCase(t *rapid.T) Case {
 	return c
 }
 
+// fixed bases: types to which no restriction applies; a chain over them can only hand a default on
+var fixedBases = map[string]*sg.TypeSpec{
+	"boolean":     {Name: "boolean"},
+	"enumeration": {Name: "enumeration", Enums: []string{"one", "two", "three"}},
+	"union": {Name: "union", Members: []*sg.TypeSpec{{Name: "uint8", Range: "0..100"}, {Name: "enumeration", Enums: []string{"auto"}}}},
+}
+
+func baseSpace(c Case) *vt.Space {
+	switch c.Base {
+	case "boolean":
+		return &vt.Space{Kind: "boolean"}
+	case "enumeration":
+		return &vt.Space{Kind: "enumeration", Names: []string{"one", "two", "three"}}
+	case "union":
+		u8 := vt.Builtin("uint8", 0)
+		u8.Ranges = []vt.Iv{{Lo: big.NewInt(0), Hi: big.NewInt(100)}}
+		return &vt.Space{Kind: "union", Members: []*vt.Space{u8, {Kind: "enumeration", Names: []string{"auto"}}}}
+	}
+	return vt.Builtin(c.Base, c.FD)
+}
+
 // model applies one level to a space; returns an error when the level must be refused.
 func applyLevel(sp *vt.Space, l Level, base string, fd int) (*vt.Space, error) {
 	out := sp.Clone()
+	if fixedBases[base] != nil {
+		if l.Range != "" || l.Length != "" || len(l.Patterns) > 0 {
+			return nil, fmt.Errorf("no restriction applies to %s", base)
+		}
+		return out, nil
+	}
 	if base == "string" {
 		if l.Range != "" {
 			return nil, fmt.Errorf("range does not apply to string")
@@ -312,6 +356,11 @@ func typeSpec(name string, l Level, fd int, withFD bool) *sg.TypeSpec {
 func build(c Case) *sg.Mod {
 	m := &sg.Mod{Name: "m0", Prefix: "m0"}
 	prev := c.Base
+	if fb := fixedBases[c.Base]; fb != nil {
+		// the base type statement itself is written once, in a bottom typedef without default
+		m.Typedefs = append(m.Typedefs, &sg.Typedef{Name: "b0", Type: fb})
+		prev = "b0"
+	}
 	for i, l := range c.Chain {
 		name := fmt.Sprintf("t%d", i)
 		m.Typedefs = append(m.Typedefs, &sg.Typedef{Name: name, Type: typeSpec(prev, l, c.FD, prev == "decimal64"), Default: l.Default})
@@ -332,7 +381,7 @@ func checkCase(c Case) fw.Outcome {
 	out.Key = src
 	out.Labels = append(out.Labels, "base:"+c.Base, fmt.Sprintf("depth:%d", len(c.Chain)))
 	// reference: spaces per level and expected verdict
-	sp := vt.Builtin(c.Base, c.FD)
+	sp := baseSpace(c)
 	var refuse error
 	var inherited *string
 	nrestr := 0
@@ -426,7 +475,9 @@ func checkCase(c Case) fw.Outcome {
 		// probes: every bound of every part +- one unit, plus random ones
 		probes := append([]string(nil), c.Probes...)
 		one := big.NewInt(1)
-		if c.Base == "string" {
+		if fixedBases[c.Base] != nil {
+			probes = append(probes, "true", "false", "one", "three", "auto", "0", "100", "101", "")
+		} else if c.Base == "string" {
 			for _, iv := range lm.sp.Lengths {
 				for _, n := range []*big.Int{new(big.Int).Sub(iv.Lo, one), iv.Lo, iv.Hi, new(big.Int).Add(iv.Hi, one)} {
 					if n.Sign() >= 0 && n.Cmp(big.NewInt(40)) < 0 {
@@ -461,7 +512,7 @@ var _ schema.Type
 
 var chain = fw.Register(&fw.Prop[Case]{
 	ID: "C13", Name: "chain",
-	Rule: "typedef chains of depth 0-4 over int8..int64, uint8..uint64, decimal64 (fd 1-3) and string, with at each level an optional range (1-n parts, min/max keywords, single values, adjacent parts) or " +
+	Rule: "typedef chains of depth 0-4 over int8..int64, uint8..uint64, decimal64 (fd 1-3), string, and the restriction-less bases boolean / enumeration / union (defaults only), with at each level an optional range (1-n parts, min/max keywords, single values, adjacent parts) or " +
 		"length + patterns, drawn as a subset of the level below (usually), as a superset / outside, as descending / overlapping / unordered, or of a kind that does not apply; defaults at any level; " +
 		"1-3 leaves sharing the last typedef with different extra restrictions; oracle: exact interval-set model (math/big): compile succeeds iff every restriction is valid and narrows its base and the " +
 		"nearest default is in the final space; then Type().Validate on every bound +- one unit and random probes agrees with membership, and Type().Default() is the nearest default; " +
